@@ -47,7 +47,8 @@ BOUNDARY16 = [0, 1, 2, 3, 4, 5, 6, 7, 15, 16, 17, 19, 20, 21, 254, 255, 256, 257
 def rand_value(rng, dtype, length, proto_ok):
     """length bytes for one field value; boundary patterns over-represented"""
     if dtype == "ProtocolType" and length >= 1:
-        return bytes([rng.choice(sorted(proto_ok))]) + rng.randbytes(length - 1)
+        b0 = rng.choice(sorted(proto_ok)) if rng.random() < 0.8 else rng.choice([145, 146, 200, 252, 253, 254, 255, rng.randrange(256)])
+        return bytes([b0]) + rng.randbytes(length - 1)
     k = rng.random()
     if k < 0.15:
         return bytes(length)
@@ -339,6 +340,11 @@ class Exporter:
             rng.shuffle(extra)
             fs = extra[: rng.randrange(1, len(extra) + 1)] + fs[: rng.randrange(0, 3)]
             rng.shuffle(fs)
+        if self.conformant and fs and rng.random() < 0.06:
+            # a zero-length field (RFC 7011 allows it; an octet array or string of no bytes), last
+            # in the template half of the time: the record loop must not take it for "no progress"
+            zf = (rng.choice(self.t.ipfix_by_dtype.get("String", [82]) + self.t.ipfix_by_dtype.get("Vec", [])), 0, None)
+            fs.insert(len(fs) if rng.random() < 0.5 else rng.randrange(len(fs) + 1), zf)
         if self.conformant and all(l == 0 for _, l, _ in fs):
             fs.append((1, 4, None))
         old = self.ix_t.get(tid)
@@ -570,6 +576,21 @@ def header_field_case(rng, tables, versions=(5, 7, 9, 10)):
     else:
         ops = ["P 0"] + ["B 0 %s" % hexs(x) for x in pk]
     return Case("header-field", ops)
+
+
+def length_sweep_case():
+    """every small value of the count / length field of a header, each followed by a complete V5
+    packet in the same buffer: what the first packet consumed decides where the second one starts"""
+    v5 = be(5, 2) + be(1, 2) + bytes(20) + bytes(48)
+    ops = ["P 0"]
+    for L in range(0, 26):
+        ops.append("B 0 " + hexs(be(10, 2) + be(L, 2) + bytes(12) + bytes(max(0, L - 16)) + v5))     # IPFIX message length
+    for L in range(0, 10):
+        ops.append("B 0 " + hexs(ipfix_msg([be(300, 2) + be(L, 2) + bytes(max(0, L - 4))]) + v5))       # IPFIX set length
+        ops.append("B 0 " + hexs(v9_pkt([be(300, 2) + be(L, 2) + bytes(max(0, L - 4))]) + v5))          # V9 flowset length
+    for c in range(0, 4):
+        ops.append("B 0 " + hexs(be(9, 2) + be(c, 2) + bytes(16) + v5))                                  # V9 count, no flowsets present
+    return Case("length-sweep", ops)
 
 
 def mutated_stream(rng, tables, versions=(5, 7, 9, 10), conformant_templates=False):
